@@ -77,6 +77,20 @@ class WrappedAttributeManager(wrapt.ObjectProxy):
             self._raise_illegal_op(NodeAcl.read_only.name)
         return self.__wrapped__.__delitem__(key)
 
+    # the attribute sets of h5py compare like mappings, i.e. by their values
+
+    def __eq__(self, other):
+        if self._self_acl[NodeAcl.skel_only]:
+            self._raise_illegal_op(NodeAcl.skel_only.name)
+        return self.__wrapped__ == other
+
+    def __ne__(self, other):
+        if self._self_acl[NodeAcl.skel_only]:
+            self._raise_illegal_op(NodeAcl.skel_only.name)
+        return self.__wrapped__ != other
+
+    __hash__ = wrapt.ObjectProxy.__hash__  # type: ignore
+
     def __repr__(self) -> str:
         return repr(self.__wrapped__)
 
